@@ -171,6 +171,18 @@ class PhaseField(_Simu):
             raise ValueError("problem error")
 
     @property
+    def mesh(self):
+        """simulation's mesh."""
+        return _Simu.mesh.fget(self)  # type: ignore [attr-defined]
+
+    @mesh.setter
+    def mesh(self, mesh) -> None:
+        _Simu.mesh.fset(self, mesh)  # type: ignore [attr-defined]
+        # the energy history belongs to the elements of the mesh it was computed on
+        self.__psiP_e_pg = np.empty(0, dtype=float)
+        self.__old_psiP_e_pg = np.empty(0, dtype=float)
+
+    @property
     def phaseFieldModel(self) -> Models.PhaseField:
         """damage model"""
         return self.model  # type: ignore [return-value]
